@@ -49,7 +49,7 @@ def run(prop, tier, replay=None):
         states, trans = res.distinct, res.generated
         cov["mc_action_counts"] = {a: res.actions[a][1] for a in ACTIONS}
         vectors = [json.loads(t) for t in sorted({f[0] for f in res.printed("REPLAY")})]
-        log(f"MC CramDoc[{tier}]: {res.distinct} states, {len(vectors)} documents (all sequences of <= {maxlen} lines over 14 line kinds), machine = reference on all judged ones, {res.wall:.0f}s")
+        log(f"MC CramDoc[{tier}]: {res.distinct} states, {len(vectors)} documents (all sequences of <= {maxlen} lines over 15 line kinds), machine = reference on all judged ones, {res.wall:.0f}s")
     vpath, rpath = os.path.join(work, "vectors.ndjson"), os.path.join(work, "records.ndjson")
     write_ndjson(vpath, vectors)
     harness(["cram-replay", "--vectors", vpath, "--records", rpath])
